@@ -197,7 +197,7 @@ def part_types(run: Run):
     # every (spec, first) task explores 1 + (n-1) + (n-1)(n-2) + ... nodes
     # (a first use that raises only after other first uses is reported as a violation and prunes its subtree)
     if run.counters.get("type_orders_explored", 0) != expected_nodes and not run.tool_errors \
-            and not run.counters.get("type_orders_raised", 0):
+            and not run.counters.get("type_orders_raised", 0) and not facts:
         run.tool_error(f"type exploration incomplete: {run.counters.get('type_orders_explored', 0)} nodes, expected {expected_nodes}")
     import re
 
@@ -304,7 +304,8 @@ def part_pyview(run: Run):
             run.note(f"pyview chain rejected: {res['rejected_example']}")
     report_grouped(run, problems, 3, "py_problems_not_listed")
     n = run.counters.get("py_chains", 0)
-    if n == 0 or run.counters.get("py_chain_rejected", 0) * 10 > n or run.counters.get("py_writes", 0) < n:
+    if n == 0 or ((run.counters.get("py_chain_rejected", 0) * 10 > n or run.counters.get("py_writes", 0) < n)
+                  and not run.violations):
         run.tool_error(f"pyview vacuous: chains={n} rejected={run.counters.get('py_chain_rejected', 0)} writes={run.counters.get('py_writes', 0)}")
 
 
@@ -329,7 +330,10 @@ def work_emit(tasks):
         q, kind, W, chain, term, mode = t
         q = tuple(q)
         chain = tuple(tuple(o) for o in chain)
-        r = V.check_emitted(q, kind, W, chain, term, mode)
+        try:
+            r = V.check_emitted(q, kind, W, chain, term, mode)
+        except Exception as e:  # noqa  (vsim could not parse/elaborate/simulate what the compiler emitted)
+            r = {"status": "simfail", "error": f"{type(e).__name__}: {str(e)[:200]}"}
         r["task"] = t
         if r["status"] in ("mismatch", "static"):
             r["key"], r["grouped"] = emit_key(q, kind, W, chain, term, mode, r)
@@ -369,6 +373,7 @@ def part_emit(run: Run):
     step = max(1, len(tasks) // 4)
     grouped = {}
     single = []
+    simfail = []
     for kind, res in pmap(work_emit, list(chunked(tasks, 40)), seed=run.seed):
         if kind != "ok":
             run.tool_error(f"emit worker failed: {res[-800:]}")
@@ -384,6 +389,8 @@ def part_emit(run: Run):
                 if run.counters["emit_ok"] % step == 1:
                     run.sample({"view": f"{V.qname(tuple(q))}[{V.KIND_PY.get(knd, 'Array')}[{W}]] root{V.chain_text(chain)}", "terminal": term,
                                 "mode": mode, "sim_evaluations": r["evals"]})
+            elif st == "simfail":
+                simfail.append(f"{V.qname(tuple(q))} root{V.chain_text(chain)} {term} {mode}: {r['error']}")
             elif st == "rejected":
                 run.note(f"emit rejected: {V.qname(tuple(q))} root{V.chain_text(chain)} {term} {mode}: {r['error'][:120]}")
             elif st in ("mismatch", "static") and r.get("grouped"):
@@ -406,9 +413,18 @@ def part_emit(run: Run):
                            f"{r['what']}; design uses root bits {r['observed']} ({n} chains of this family show the same shift)",
                       {"part": "emit", "q": list(q), "kind": knd, "W": W, "chain": [list(o) for o in chain], "term": term,
                        "mode": mode, "cohdl_source": r.get("src"), "instances": n})
-    acc = run.counters.get("emit_ok", 0) + run.counters.get("emit_mismatch", 0)
+    if simfail:
+        # the emitted VHDL of an accepted wrapper could not be simulated: machinery failure, unless the run has
+        # already shown that the views are broken (then the text is most likely not legal VHDL any more)
+        if run.violations:
+            run.note(f"{len(simfail)} wrappers not simulated, first: {simfail[0]}")
+        else:
+            run.tool_error(f"{len(simfail)} wrappers could not be simulated, first: {simfail[0]}")
+    acc = run.counters.get("emit_ok", 0) + run.counters.get("emit_mismatch", 0) + run.counters.get("emit_static", 0)
     applicable = len(tasks) - run.counters.get("emit_na", 0)
-    if applicable == 0 or acc * 10 < applicable * 9:
+    # vacuity guard: only meaningful for a run that found nothing (a defect in the view machinery can make the
+    # compiler reject many wrappers; the run has then already produced its verdict through the violations)
+    if applicable == 0 or (acc * 10 < applicable * 9 and not run.violations):
         run.tool_error(f"emit vacuous: only {acc} of {applicable} wrapper designs accepted by the compiler")
 
 
